@@ -605,6 +605,12 @@ func (c *Client) monitor(ctx context.Context) {
 				dlog.Printf("resuming %d subscriptions", activeSubs)
 				c.resumeSubscriptions(ctx)
 				dlog.Printf("resumed %d subscriptions", activeSubs)
+			case len(c.SubscriptionIDs()) > 0:
+				// a restored session keeps its subscriptions: there was nothing
+				// to republish or recreate, but the publish loop was paused and
+				// has to be resumed for the subscriptions that are still registered
+				dlog.Printf("resuming registered subscriptions")
+				c.resumeSubscriptions(ctx)
 			default:
 				dlog.Printf("no subscriptions to resume")
 			}
